@@ -34,12 +34,17 @@ type Config struct {
 	// Inactivity arms the server manager's InactivityTimeout: a virtual timer that may fire at
 	// any point while the server waits for the next invoke.
 	Inactivity bool
+	// Cold skips the warm start: the managers' goroutines start interleaved with the scenario.
+	Cold bool
 }
 
 func (c Config) String() string {
 	s := fmt.Sprintf("soft=%v cap=%d rmax=%d split=%d wbuf=%d mf=%v", c.Soft, c.Pipe.Cap, c.Pipe.ReadMax, c.SplitSize, c.WriterBuf, c.ManualFlush)
 	if c.Inactivity {
 		s += " inactivity-timeout"
+	}
+	if c.Cold {
+		s += " cold-start"
 	}
 	return s
 }
@@ -122,6 +127,14 @@ func NewEnv(cfg Config, h HandlerFunc) *Env {
 		env.ServeDone = true
 	})
 	env.Conn = drpcconn.NewWithOptions(env.Cli, drpcconn.Options{Manager: cfg.manager()})
+	if !cfg.Cold {
+		// warm start: both managers' goroutines are started and parked (without branching) before
+		// the scenario's own goroutines exist. The creation order is what the reference schedules
+		// are built from, so this makes them "library goroutines first, then the application's in
+		// creation order" (and the exact opposite when reversed): one preemption of an application
+		// goroutine lets the whole library reaction to what it already wrote run before it resumes.
+		sched.Setup(sched.Quiesce)
+	}
 	return env
 }
 
